@@ -760,3 +760,242 @@ def fam_edge(ctx, k):
                       and np.array_equal(NH.transpose(A), A.T) and NH.trace(A) == np.trace(A)
                       and np.array_equal(NH.dot(A[0], B[0]), A[0] @ B[0]), mech="np-helper:int-algebra",
                       helper="mul/transpose/trace/dot(integer)")
+
+
+# ------------------------------------------------------------------ a fresh interpreter
+# The JAX helpers compute in double precision because importing skfem.autodiff switches JAX to 64 bit.  A process that
+# has assembled a NonlinearForm before (every other family of this module, sooner or later) cannot see whether the
+# helpers depend on anything else that assembly does, so one program per case runs in a NEW interpreter:
+#     import skfem.autodiff.helpers -> every JAX helper on float64 input -> the first assembly of the process
+#     (assemble / elemental) -> every JAX helper again
+# (third program: the assembly is the very first JAX computation of the process).  The child only computes; the data
+# come from the parent, which judges the answers against the definitions, the NumPy helpers, the hand-linearised
+# matrix and the ordinarily assembled residual exactly as the in-process families do.
+_CHILD_CODE = "from rv.monitors import c20_helpers as M\nM.child_main()\n"
+FRESH_PROGRAMS = (("helpers:before-assembly", "assemble", "helpers:after-assembly"),
+                  ("helpers:before-assembly", "elemental", "helpers:after-assembly"),
+                  ("assemble", "helpers:after-assembly"))
+
+
+def child_main():
+    """Entry point of the new interpreter: pickled request on stdin, pickled answer on stdout."""
+    import pickle
+    import sys
+    import warnings
+    out = sys.stdout.buffer
+    sys.stdout = sys.stderr                 # nothing but the answer may reach the pipe
+    warnings.simplefilter("ignore")
+    req = pickle.loads(sys.stdin.buffer.read())
+    # importing the harness modules must not have touched JAX (otherwise the run says nothing about a fresh process)
+    ans = {"jax_preloaded": ("jax" in sys.modules) or ("skfem.autodiff" in sys.modules), "phases": {}, "x64": {}}
+    try:
+        for step in req["program"]:
+            if step.startswith("helpers:"):
+                ans["phases"][step] = child_helpers(req["cases"], req["fields"])
+            else:
+                ans["asm"] = child_assemble(req["asm"], elemental=(step == "elemental"))
+            import jax
+            ans["x64"][step] = bool(jax.config.jax_enable_x64)
+    except BaseException as e:              # reported to the parent, which decides
+        import traceback
+        ans["error"] = type(e).__name__ + ":" + repr(e)[:300] + " @ " + traceback.format_exc()[-600:]
+    out.write(pickle.dumps(ans))
+    out.flush()
+
+
+def child_helpers(cases, fields):
+    """Every JAX helper on the parent's float64 data, the way a user calls them after `import skfem.autodiff.helpers`."""
+    from skfem.autodiff import helpers as JHm
+    from skfem.autodiff import JaxDiscreteField
+    import jax.numpy as jnp
+    res = {}
+
+    def record(key, fn):
+        try:
+            got = fn()
+            res[key] = {"dtype": str(getattr(got, "dtype", type(got).__name__)), "value": np.asarray(got)}
+        except Exception as e:
+            res[key] = {"error": type(e).__name__ + ":" + repr(e)[:200]}
+
+    for key, name, args, spelling in cases:
+        def conv(x):
+            if not isinstance(x, np.ndarray):
+                return x
+            if spelling == "jax":
+                return jnp.asarray(x)
+            if spelling == "field":
+                return JaxDiscreteField(jnp.asarray(x))
+            return x
+        record(key, lambda: getattr(JHm, name)(*tuple(conv(x) for x in args)))
+    for key, name, attrs in fields:
+        record(key, lambda: getattr(JHm, name)(JaxDiscreteField(*attrs)))
+    return res
+
+
+def child_assemble(spec, elemental):
+    import pickle
+    import skfem
+    from . import c20 as C
+    from ..gen import c20_integrands as TG
+    layout, kind, idx = spec["rec"]
+    rec = C.lay()[layout][kind][idx]
+    mesh = pickle.loads(spec["meshclass"])(spec["p"], spec["t"])
+    basis = skfem.CellBasis(mesh, rec.make(), intorder=spec["intorder"])
+    pool = [t for t in TG.pool(spec["pool"]) if t.layout == layout and t.energy == spec["energy"]]
+    terms = [[t for t in pool if t.name == name][0] for name in spec["terms"]]
+    prob = C.Problem(basis, terms, spec["Ps"], {}, energy=spec["energy"], spelling=spec["spelling"], factor=spec["factor"])
+    J, r = prob.call(spec["x"], elemental=elemental)
+    if elemental:
+        J, r = J.todefault(), r.todefault()
+    return {"J": np.asarray(J.toarray()), "rhs": np.asarray(r), "Jdtype": str(J.dtype), "N": int(basis.N),
+            "construction": prob.construction}
+
+
+def fresh_field_cases(rng):
+    """(key, helper, attributes of the field, reference, scale, rtol) for the JAX helpers that take a field."""
+    nel, nq = int(rng.integers(2, 5)), int(rng.integers(1, 4))
+    R = lambda *s: rng.standard_normal(s + (nel, nq))
+    out = []
+    for d in (2, 3):
+        val, g = R(d), R(d, d)
+        out.append((f"grad:{d}", "grad", (val, g), g, np.abs(g), 0.0))
+        out.append((f"div(trace):{d}", "div", (val, g), *d_trace(g), RT))
+        out.append((f"sym_grad:{d}", "sym_grad", (val, g), .5 * (g + np.swapaxes(g, 0, 1)),
+                    np.abs(g) + np.abs(np.swapaxes(g, 0, 1)), RT))
+        sv, sg, sh = R(), R(d), R(d, d)
+        out.append((f"dd:{d}", "dd", (sv, sg, None, None, sh), sh, np.abs(sh), 0.0))
+        dv = R()
+        out.append((f"div(attr):{d}", "div", (val, None, dv), dv, np.abs(dv), 0.0))
+    v1, g1 = R(), R(1)
+    out.append(("div(1d)", "div", (v1, g1), g1[0], np.abs(g1[0]), 0.0))
+    return out
+
+
+def fam_fresh_process(ctx, k):
+    import os
+    import pickle
+    import subprocess
+    import sys
+    import skfem
+    from skfem import helpers as NH
+    from ..engine import REPO, VERIF
+    from . import c20 as C
+    rng = ctx.rng()
+    program = FRESH_PROGRAMS[k % len(FRESH_PROGRAMS)]
+    # ---- helper inputs (float64, C-contiguous; the spelling numpy / jnp array / JaxDiscreteField rotates)
+    if ctx.thorough:
+        shapes = [(2, TRAILING[(k // 3) % len(TRAILING)]), (3, TRAILING[(k // 3 + 3) % len(TRAILING)]), (2 + k % 2, (4, 3))]
+    else:
+        shapes = [(2, (4, 3)), (3, (5,))]
+    cases, refs = [], {}
+    for n, tr in shapes:
+        for i, (label, name, args, (ref, scale)) in enumerate(raw_cases(rng, n, tr, "C", JAX_RAW)):
+            spelling = ("numpy", "jax", "field")[(i + k) % 3]
+            if spelling == "field" and name not in JAX_ACCEPTS_FIELD:
+                spelling = "jax"
+            key = f"{label}:{n}x{n}:{len(tr)}"
+            cases.append((key, name, args, spelling))
+            refs[key] = (label, name, args, ref, scale, {"n": n, "trailing": tr, "spelling": spelling})
+    fcases = fresh_field_cases(rng)
+    # ---- the first assembly of the process: a problem of the grammar on a small mesh rebuilt from (p, t) on both sides
+    energy = (k % 4 == 3)
+    layout, kind, rec = C.choose(ctx, k, ["scalar", "vector"], 8, pred=lambda r: r.mesh_req == "any")
+    idx = C.lay()[layout][kind].index(rec)
+    mc = C.small_mesh(ctx, rng, kind, {"line": 5, "tri": 6, "quad": 4, "tet": 4, "hex": 2, "wedge": 2}[kind])
+    p, t = np.array(mc.mesh.p), np.array(mc.mesh.t)
+    mesh = type(mc.mesh)(p, t)
+    intorder = 3 + k % 2
+    basis = skfem.CellBasis(mesh, rec.make(), intorder=intorder)
+    poolname = "energy" if energy else layout
+    terms = [tm for tm in C.pick_terms(rng, poolname, layout, mesh.dim(), kmax=2, energy=energy, rot=k // 2)
+             if tm.kw is None and tm.name != "kwargs"]
+    if not terms:
+        raise Skip("only-keyword-terms")
+    Ps = [tm.coef(rng) for tm in terms]
+    prob = C.Problem(basis, terms, Ps, {}, energy=energy, spelling=k)
+    names = prob.names()
+    which, x = C.lin_point(ctx, rng, prob, ("unit", "large")[k % 2])
+    x = C.representable(x, prob.xspelling, prob, which)
+    req = {"program": program, "cases": cases, "fields": [(key, name, attrs) for key, name, attrs, _, _, _ in fcases],
+           "asm": {"rec": (layout, kind, idx), "meshclass": pickle.dumps(type(mesh)), "p": p, "t": t, "intorder": intorder,
+                   "pool": poolname, "terms": [tm.name for tm in terms], "Ps": Ps, "energy": energy, "spelling": k,
+                   "factor": None, "x": x}}
+    env = dict(os.environ, PYTHONPATH=os.pathsep.join([REPO, VERIF, os.path.join(VERIF, ".deps")]), PYTHONHASHSEED="0",
+               PYTHONDONTWRITEBYTECODE="1")
+    env.pop("JAX_ENABLE_X64", None)          # (somebody else switching JAX to 64 bit would make the run vacuous)
+    r = subprocess.run([sys.executable, "-B", "-c", _CHILD_CODE], input=pickle.dumps(req), capture_output=True,
+                       timeout=300, env=env, cwd=VERIF)
+    try:
+        ans = pickle.loads(r.stdout)
+    except Exception:
+        ans = None
+    if r.returncode != 0 or not isinstance(ans, dict):
+        raise Skip("fresh-process-run-failed:" + (r.stderr or b"")[-160:].decode("utf8", "replace"))
+    if ans["jax_preloaded"]:
+        raise Skip("fresh-process-not-fresh:jax-imported-by-the-harness")
+    tag = {"program": list(program), "x64_after_step": ans["x64"]}
+    if "error" in ans:
+        # the program itself failed inside the library / JAX: the statement promises values, not exceptions
+        ctx.check("helper-jax-definition", False, mech="fresh-process:program-raises:" + ans["error"].split(":")[0],
+                  error=ans["error"], **tag)
+        return
+    # ---- helpers
+    for phase, res in ans["phases"].items():
+        def single(out):
+            return out.get("dtype") == "float32"
+        for key, (label, name, args, ref, scale, det) in refs.items():
+            out = res.get(key, {"error": "missing"})
+            if "error" in out:
+                ctx.check("helper-jax-definition", False, mech=f"fresh-process:{phase}:jax-helper-raises:{label}",
+                          helper=label, error=out["error"], **det, **tag)
+                continue
+            m32 = f"fresh-process:{phase}:jax-helpers-compute-in-float32"
+            compare(ctx, "helper-jax-definition", label, out["value"], ref, scale,
+                    mech=m32 if single(out) else f"fresh-process:{phase}:jax-helper:{label}", dtype=out["dtype"], **det, **tag)
+            ctx.check("jax-float64", out["dtype"] == "float64",
+                      mech=m32 if single(out) else f"fresh-process:{phase}:jax-helper-result-not-float64:{label}",
+                      helper=label, dtype=out["dtype"], **det, **tag)
+            if hasattr(NH, name):
+                compare(ctx, "helper-jax-equals-np", label, out["value"], getattr(NH, name)(*args), scale,
+                        mech=m32 if single(out) else f"fresh-process:{phase}:jax-vs-np:{label}", dtype=out["dtype"], **det, **tag)
+            ctx.nontrivial("fresh-process", phase, label, det["n"], len(det["trailing"]))
+        for key, name, attrs, ref, scale, rtol in fcases:
+            out = res.get(key, {"error": "missing"})
+            if "error" in out:
+                ctx.check("helper-jax-definition", False, mech=f"fresh-process:{phase}:jax-field-helper-raises:{key}",
+                          helper=key, error=out["error"], **tag)
+                continue
+            m32 = f"fresh-process:{phase}:jax-helpers-compute-in-float32"
+            compare(ctx, "helper-jax-definition", key, out["value"], ref, scale, rtol=rtol,
+                    mech=m32 if single(out) else f"fresh-process:{phase}:jax-field:{key}", dtype=out["dtype"], **tag)
+            ctx.check("jax-float64", out["dtype"] == "float64",
+                      mech=m32 if single(out) else f"fresh-process:{phase}:jax-field-helper-result-not-float64:{key}",
+                      helper=key, dtype=out["dtype"], **tag)
+            ctx.nontrivial("fresh-process", phase, key)
+        ctx.reached("fresh-process:" + phase)
+    # ---- the assembly
+    asm = ans.get("asm")
+    if asm is not None:
+        N = basis.N
+        x0 = np.zeros(N) if x is None else x
+        atag = dict(tag, layout=layout, elem=rec.name, mesh=type(mesh).__name__, terms=names, point=which,
+                    construction=asm["construction"])
+        ok = asm["N"] == N and asm["J"].shape == (N, N) and asm["rhs"].shape == (N,) and asm["Jdtype"] == "float64" \
+            and asm["rhs"].dtype == np.float64
+        ctx.check("output-structure", ok, mech="fresh-process:first-assembly:output-structure", N=int(N), childN=asm["N"],
+                  Jdtype=asm["Jdtype"], **atag)
+        if ok:
+            F = prob.residual(x0)
+            sF = float(prob.residual(x0, absolute=True).max())
+            ctx.close("rhs-is-minus-residual", asm["rhs"], -F, rtol=C.RT_RHS, scale=sF,
+                      mech="fresh-process:first-assembly:rhs:" + names, **atag)
+            Jh = prob.jac_hand(x0).toarray()
+            ctx.close("jacobian-vs-hand-linearised", asm["J"], Jh, rtol=C.RT_HAND, scale=float(np.abs(Jh).max()),
+                      mech="fresh-process:first-assembly:jac-hand:" + names,
+                      worst=lambda: C.worst_entry(asm["J"], Jh), **atag)
+            ctx.reached("fresh-process:first-assembly")
+            ctx.reached("fresh-process:first-call:" + ("elemental" if "elemental" in program else "assemble"))
+            if float(np.abs(Jh).max()) > 0:
+                ctx.nontrivial("fresh-process", "assembly", layout, names, program.index([s for s in program if ":" not in s][0]))
+    ctx.sample({"program": list(program), "helpers": len(cases) + len(fcases), "assembly": {"layout": layout, "elem": rec.name,
+                "terms": names, "N": int(basis.N)}, "x64_after_step": ans["x64"]}, per_family=2)
